@@ -52,6 +52,23 @@ def r1_discipline(ctx, prog):
             n += 1
             if mutex not in held:
                 unlocked.setdefault(fq, []).append((rw, line))
+        # calls through a local copy of a protected pointer field (T* p = field; ... p->m()) are uses of the field as well
+        alias = {}
+        for n in walk(f['body']):
+            if n.get('k') == 'Decl':
+                for d in n['decls']:
+                    i = d.get('init')
+                    if i is not None and i.get('k') == 'Member' and i.get('base', {}).get('k') == 'This' and i['field'] in fields and '*' in d.get('type', ''):
+                        alias[d['var']['name']] = i['field']
+            elif n.get('k') == 'Assign' and n['a'].get('k') == 'Var' and n['a'].get('kind') == 'local' and n['b'].get('k') == 'Member' and n['b'].get('base', {}).get('k') == 'This' and n['b']['field'] in fields:
+                alias[n['a']['name']] = n['b']['field']
+        for c, held in fl.calls:
+            rc = c.get('recv') if c.get('k') == 'Call' else None
+            if rc is not None and rc.get('k') == 'Var' and rc['name'] in alias and mutex not in held:
+                ok2, why2 = locks.callers_hold(prog, q, mutex, cls)
+                if not ok2:
+                    r.violation(q, 'use of %s through %s' % (alias[rc['name']], rc['name']), '%s is copied from %s under the lock but %s is called through it at line %s without %s held: the object behind the pointer (its cipher context, its login state) is used by two threads at once'
+                                % (rc['name'], alias[rc['name']], short(c.get('callee')), c['l'], mutex), file=f['file'], line=c['l'])
         for fld in fields:
             fq = cls + '::' + fld
             acc = [a for a in fl.accesses if a[0] == fq]
@@ -330,6 +347,9 @@ def run(ctx):
 
 
 MUTANTS = [
+    dict(name='token-decrypt-narrowed-lock', rule='C18.R1', file='src/lib/slot_mgr/Token.cpp', after='bool Token::decrypt(const ByteString &encrypted, ByteString &plaintext)',
+         old='\t// Lock access to the token\n\tMutexLocker lock(tokenMutex);\n\n\tif (sdm == NULL) return false;\n\n\treturn sdm->decrypt(encrypted,plaintext);',
+         new='\tSecureDataManager* mgr = NULL;\n\t{\n\t\tMutexLocker lock(tokenMutex);\n\t\tmgr = sdm;\n\t}\n\tif (mgr == NULL) return false;\n\treturn mgr->decrypt(encrypted,plaintext);'),
     dict(name='addtokenobject-lookup-outside-lock', rule='C18.R5', file='src/lib/handle_mgr/HandleManager.cpp', after='CK_OBJECT_HANDLE HandleManager::addTokenObject(',
          old='\tMutexLocker lock(handlesMutex);\n', new='\tCK_OBJECT_HANDLE hExisting = getObjectHandle(object);\n\tMutexLocker lock(handlesMutex);\n\tif (hExisting != CK_INVALID_HANDLE) return hExisting;\n'),
     dict(name='handlemanager-getobject-no-lock', rule='C18.R1', file='src/lib/handle_mgr/HandleManager.cpp', after='CK_VOID_PTR HandleManager::getObject(',
